@@ -83,11 +83,16 @@ impl LogicalLineFileFormatter for OptimisingLineFormatter {
         /*
             After each line's solution has been finalised, the extra spaces
             provided by `TokenSpacing` can be removed at the starts of lines.
+            This must wait until no line will be wrapped again: a token that
+            is at the start of a line now may be joined onto the previous line
+            by the second round below, and then needs its space.
         */
-        for token_index in 0..olf.formatted_tokens.len() {
-            if let Some(data) = olf.formatted_tokens.get_formatting_data_mut(token_index) {
-                if data.newlines_before > 0 {
-                    data.spaces_before = 0;
+        fn remove_spaces_at_line_starts(formatted_tokens: &mut FormattedTokens) {
+            for token_index in 0..formatted_tokens.len() {
+                if let Some(data) = formatted_tokens.get_formatting_data_mut(token_index) {
+                    if data.newlines_before > 0 {
+                        data.spaces_before = 0;
+                    }
                 }
             }
         }
@@ -110,6 +115,7 @@ impl LogicalLineFileFormatter for OptimisingLineFormatter {
             not cause any multi-line strings to change in indentation.
         */
         if !self.olf_settings.format_multiline_strings {
+            remove_spaces_at_line_starts(olf.formatted_tokens);
             return;
         }
 
@@ -141,14 +147,7 @@ impl LogicalLineFileFormatter for OptimisingLineFormatter {
             }
         }
 
-        // The second round of wrapping may have moved further tokens to the starts of lines.
-        for token_index in 0..olf.formatted_tokens.len() {
-            if let Some(data) = olf.formatted_tokens.get_formatting_data_mut(token_index) {
-                if data.newlines_before > 0 {
-                    data.spaces_before = 0;
-                }
-            }
-        }
+        remove_spaces_at_line_starts(olf.formatted_tokens);
     }
 }
 impl OptimisingLineFormatter {
